@@ -49,6 +49,12 @@ Proof.
   destruct (conv_args c Hconv a (get_pos_in c pos a Hg)) as [H1 [H2 _]]. rewrite H1, H2. split; reflexivity.
 Qed.
 
+Lemma conv_lookahead pos : lookahead_at c pos = false.
+Proof.
+  destruct (conv_parts c Hconv) as [_ [_ [_ [Hamp Hlow]]]]. unfold lookahead_at, Escape.low_index_mults_any.
+  unfold low_index_multiple in Hlow. rewrite Hlow, Hamp. reflexivity.
+Qed.
+
 Lemma wf_wfx_item pst pos it : wf_item c pst pos it = true -> wfx_item c pst pos it = true.
 Proof.
   unfold wf_item, wfx_item. intros H. apply andb_prop in H. destruct H as [H1 H2]. rewrite H1. cbn [andb].
@@ -67,7 +73,7 @@ Proof.
       apply conv_sepx; [|exact H5]. intros a G. apply (get_short_in c o a G).
   - unfold posx_ok. rewrite H2. cbn [orb andb]. destruct (pos_ok_parts _ _ _ H2) as [a [v [vs' [Hg _]]]]. rewrite Hg.
     destruct (conv_args c Hconv a (get_pos_in c pos a Hg)) as [Hh [Hn [_ Ht]]].
-    destruct (conv_args_pos c Hconv a (get_pos_in c pos a Hg)) as [Hlast Htva]. rewrite Hlast, Htva, Hh, Hn. cbn [negb andb]. rewrite orb_true_r, !andb_true_r.
+    destruct (conv_args_pos c Hconv a (get_pos_in c pos a Hg)) as [Hlast Htva]. rewrite Hlast, Htva, Hh, Hn, conv_lookahead. cbn [negb andb]. rewrite orb_true_r, !andb_true_r.
     apply forallb_forall. intros w _. unfold check_terminator. rewrite Ht. reflexivity.
 Qed.
 
